@@ -23,7 +23,7 @@ CFG = {
             "filters.bloomFilter, filters.filterLogs": "corr (overlay accessor) + direct judgement",
             "bloombits.calcBloomIndexes": "corr (overlay accessor); theorem indexes_agree",
             "bloombits.Generator NewGenerator/AddBloom/Bitset": "corr (sessions) + direct transposition judgement; limits regenerated (T-gen bloom)",
-            "bloombits.Matcher (NewMatcher, Start, run, subMatch, distributor, MatcherSession.*), scheduler": "corr on the session's input/output function only (goroutine pipeline not modelled)",
+            "bloombits.Matcher (NewMatcher, Start, run, subMatch, distributor, MatcherSession.*), scheduler": "corr on the session's input/output function, under retrievers that drop, reorder, repeat and invent deliveries; the pipeline itself is a transition system (Aqv.Model.MatcherPipeline) proved to compute that function under every schedule (matcher_session_spec, no_result_before_all_vectors, sections_emitted_in_order)",
             "filters.New, Filter.Logs/indexedLogs/unindexedLogs/checkMatches": "corr + direct judgement vs brute force",
             "aqua.NewBloomIndexer, aqua.BloomIndexer Reset/Process/Commit, aqua.startBloomHandlers, AquaApiBackend.BloomStatus/ServiceFilter": "the REAL code (package aqua linked, overlay accessor aqua/c16_access.go): hook-based mid-section reorg over the real backend, and index section -> reorg inside it -> re-index -> Filter.Logs through the node's own constructor, retrieval handlers and API backend; the plain generated chains still use a harness replica of Commit/retrieval (any section size)",
             "bitutil.CompressBytes/DecompressBytes (bitsetEncodeBytes, bitsetDecodePartialBytes)": "corr (cases cz, dz incl. malformed encodings) + direct round-trip judgement around the break-even density; theorems decompress_compress, stored_vectors_roundtrip",
@@ -31,16 +31,16 @@ CFG = {
             "types.BloomByteLength/BloomBitLength, params.BloomBitsBlocks(+Client)": "gen (theorems constants_agree, deployed_section_sizes_accepted)"},
     "assumptions": ["Go runtime, math/big and Keccak-256 are modelled, not verified (DESIGN.md 2.5); theorems hold for an arbitrary hash function",
                     "header.Bloom = CreateBloom(receipts) for every canonical block (enforced by BlockValidator.ValidateState; checked on every generated block)",
-                    "the matcher's goroutine pipeline, scheduler cache and retrieval (bitutil compression round trip, DB) are represented by their input/output function; context cancellation and retrieval errors are outside the model",
+                    "the matcher's goroutine pipeline is modelled as a transition system (FIFO channels of unbounded capacity, arbitrary delivery environment that returns the stored vector); channel capacities, the quit/kill shutdown path, context cancellation and retrieval errors are outside the model",
                     "index progress satisfies sections*size <= head+1 (ChainIndexer commits only complete sections of canonical headers); begin/end >= -1 and below 2^63"],
     "trusted_base": ["Aqv.Model.LogFilter mirrors core/types/bloom9.go, aqua/filters/filter.go, core/bloombits/generator.go and the AND/OR/extraction logic of core/bloombits/matcher.go"],
 }
 META = {
     "technique": "Lean 4 proof (no false negatives, transposition, matcher = bloomFilter, Filter.Logs = brute force; unbounded) tied to core/types, core/bloombits and aqua/filters by differential correspondence",
-    "text": "Theorems bloom_no_false_negative, testBytes_no_false_negative, bloomFilter_sound, indexes_agree, transpose_spec, matcher_spec, extraction_spec, decompress_compress, stored_vectors_roundtrip, section_commit_requires_contiguous_headers, matcher_session_spec_partial and "
+    "text": "Theorems bloom_no_false_negative, testBytes_no_false_negative, bloomFilter_sound, indexes_agree, transpose_spec, matcher_spec, extraction_spec, decompress_compress, stored_vectors_roundtrip, section_commit_requires_contiguous_headers, matcher_session_spec and "
             "logs_exact hold in the Lean model for every hash function, log set, criteria, block range (open ends, straddling the indexed boundary), every "
             "section size the generator accepts and every index progress; every run re-proves them, regenerates the bloom constants and generator limits "
             "from the compiled packages, and runs the real CreateBloom/BloomLookup, Generator, Matcher sessions and Filter.Logs against the compiled model "
             "and against a brute-force scan on generated chains.",
-    "note": GEN + " The matcher's concurrent pipeline is modelled by its input/output function only (theorem suffix _partial); the generator only works for section sizes >= 2048 (carried as a precondition, proved as generator_rejects_small_sections).",
+    "note": GEN + " The matcher's concurrent pipeline is a transition system whose every schedule is proved to compute the pure per-section function (matcher_session_spec); the generator only works for section sizes >= 2048 (carried as a precondition, proved as generator_rejects_small_sections).",
 }
